@@ -42,6 +42,10 @@ EXEMPT = {
 }
 
 
+# arguments of the functions above that are *not* "the values one is selected from": an error value given there must show
+STRICT_ARGS = {'VLOOKUP': {2, 3}, 'HLOOKUP': {2, 3}, 'INDEX': {1, 2}, 'MATCH': {2}, 'LARGE': {1}, 'SMALL': {1}}
+
+
 def broadcast_error(case):
     return case.get('class') == 'incompatible-shapes' and 'BroadcastError' in case.get('what', '')
 
@@ -146,7 +150,7 @@ def check(run):
     bookrun.setup(); setup()
     rnd = run.rng
     quick = run.tier == 'quick'
-    scalars = [1, 2.5, 0, -3, 1e10, 'abc', '5', '', True, False, EMPTY, NA, DIV]
+    scalars = [1, 2.5, 0, -3, 1e10, 'abc', '5', '', True, False, EMPTY, NA, DIV, '1e999', 'inf', '-1E400']
 
     def arr(shape, err=None):
         a = np.empty(shape, object)
@@ -195,7 +199,8 @@ def check(run):
                 if not ok_value(r):
                     run.violation('%s returns something that is not an Excel value: %r' % (name, r if not isinstance(r, np.ndarray) else r.tolist()), case)
                 if any(has_err(a) for a in args) and not has_err(r):
-                    if name in EXEMPT:
+                    strict = any(has_err(a) for i, a in enumerate(args) if i in STRICT_ARGS.get(name, ()))
+                    if name in EXEMPT and not strict:
                         n_exempt_hits += 1
                     else:
                         run.violation('%s loses the error value of an argument: result %s' % (name, show(r) if not isinstance(r, np.ndarray) else show(r)), case)
